@@ -58,7 +58,7 @@ def _clock_read(e):
     return isinstance(e, ast.Call) and call_name(e) == "self.clock.seconds" and not e.args
 
 
-def _registrations(f_call):
+def _registrations(f_call, meths=None):
     """(callback-side names, errback-side names, maybeDeferred call nodes) of __call__."""
     nested = nested_defs(f_call)
     md_calls = [c for c in body_walk(f_call) if isinstance(c, ast.Call) and call_attr(c) == "maybeDeferred"]
@@ -79,8 +79,16 @@ def _registrations(f_call):
         if not (isinstance(c, ast.Call) and isinstance(c.func, ast.Attribute) and rooted(c.func.value)):
             continue
         a = c.func.attr
-        names = [x.id if isinstance(x, ast.Name) else None for x in c.args]
-        kw = {k.arg: (k.value.id if isinstance(k.value, ast.Name) else None) for k in c.keywords}
+        def cbkey(x):
+            # a closure of __call__ (by name) or a bound method of the instance (closures lifted to methods): "self.<name>"
+            if isinstance(x, ast.Name):
+                return x.id
+            if self_attr(x) and meths and x.attr in meths:
+                nested["self." + x.attr] = meths[x.attr]
+                return "self." + x.attr
+            return None
+        names = [cbkey(x) for x in c.args]
+        kw = {k.arg: cbkey(k.value) for k in c.keywords}
         if a == "addCallback" and names:
             cbs.add(names[0])
         elif a == "addErrback" and names:
@@ -116,9 +124,12 @@ def check(ctx):
     funcs = all_funcs_of_class(cls)
     nested, cbs, ebs, md_calls = {}, set(), set(), []
     with section(ctx, "callbacks registered by __call__"):
-        nested, cbs, ebs, md_calls = _registrations(f_call)
-    cb_quals = {f"LoopingCall.__call__.{n}" for n in cbs}
-    eb_quals = {f"LoopingCall.__call__.{n}" for n in ebs}
+        nested, cbs, ebs, md_calls = _registrations(f_call, meths)
+
+    def qual_of(n):
+        return f"LoopingCall.{n[5:]}" if n.startswith("self.") else f"LoopingCall.__call__.{n}"
+    cb_quals = {qual_of(n) for n in cbs}
+    eb_quals = {qual_of(n) for n in ebs}
 
     # ---- (a) the function is called only through maybeDeferred, with the stored arguments ---------------
     with section(ctx, '(a) the function is called only through maybeDeferred, with the stored arguments'):
@@ -219,7 +230,7 @@ def check(ctx):
             gc = ctx.cfg(nested[n_])
             for t in gc.ids(lambda n: n.kind == "test" and src(n.ast) == "self.running"):
                 w = must_pass(gc, [d for d, l in gc.succ[t] if l == "T"], _sched_nodes(gc), exc=False)
-                ctx.check(w is None, "cadence/loop-continues", f"{Q}.__call__.{n_}", "a completed call of a running loop is not followed by the next one", witness=gc.describe(w))
+                ctx.check(w is None, "cadence/loop-continues", f"twisted.internet.task.{qual_of(n_)}", "a completed call of a running loop is not followed by the next one", witness=gc.describe(w))
         for q, f in funcs:
             for c in (body_walk(f) if not isinstance(f, ast.Lambda) else ast.walk(f.body)):
                 if not isinstance(c, ast.Call):
@@ -299,7 +310,8 @@ def check(ctx):
                 if call.func.attr == "callback":
                     ctx.check(len(call.args) == 1 and src(call.args[0]) == "self", "fire-once/result", key, "the success result is not the LoopingCall")
                 else:
-                    p = f.args.args[0].arg if f.args.args else None
+                    ps_ = [a.arg for a in f.args.args if a.arg != "self"]   # closure: (failure); bound method: (self, failure)
+                    p = ps_[0] if ps_ else None
                     ctx.check(len(call.args) == 1 and isinstance(call.args[0], ast.Name) and call.args[0].id == p, "fire-once/result", key,
                               "the errback is not fired with the failure received")
         ctx.floor("fire-once/swap", nfires, 2)
@@ -312,19 +324,19 @@ def check(ctx):
             gf = ctx.cfg(f)
             fires = gfind(gf, lambda x: isinstance(x, ast.Call) and call_attr(x) == "errback")
             w = must_pass(gf, [gf.entry], fires, exc=False)
-            ctx.check(bool(fires) and w is None, "fire-once/failure-fires", f"{Q}.__call__.{n_}",
+            ctx.check(bool(fires) and w is None, "fire-once/failure-fires", f"twisted.internet.task.{qual_of(n_)}",
                       "a failure of f can leave start()'s Deferred unfired", witness=gf.describe(w))
         for n_ in sorted(cbs - ebs):
             f = nested[n_]
             gf = ctx.cfg(f)
             tests = gf.ids(lambda nd: nd.kind == "test" and src(nd.ast) == "self.running")
             fires = gfind(gf, lambda x: isinstance(x, ast.Call) and call_attr(x) == "callback")
-            ctx.check(bool(tests), "fire-once/stopped-in-flight", f"{Q}.__call__.{n_}",
+            ctx.check(bool(tests), "fire-once/stopped-in-flight", f"twisted.internet.task.{qual_of(n_)}",
                       "the completion callback does not test self.running: a loop stopped while f's Deferred was pending is rescheduled or never reports")
             for t in tests:
                 fs = [d for d, l in gf.succ[t] if l == "F"]
                 w = must_pass(gf, fs, fires, exc=False)
-                ctx.check(bool(fires) and w is None, "fire-once/stopped-in-flight", f"{Q}.__call__.{n_}",
+                ctx.check(bool(fires) and w is None, "fire-once/stopped-in-flight", f"twisted.internet.task.{qual_of(n_)}",
                           "stop() issued while f's Deferred was unfired never fires start()'s Deferred", witness=gf.describe(w))
 
     # ---- stop() --------------------
@@ -834,4 +846,16 @@ SILENT = [
            more=[(TASK, "        def counter() -> object:\n", "        def firstBaseline() -> float:\n            if not self._runAtStart:\n                return self.starttime\n            return self.starttime - self.interval\n\n        def counter() -> object:\n")]),
     Silent("one-callLater-per-branch", TASK, "        self.call = self.clock.callLater(howLong(), self)\n",
            "        if self.interval == 0:\n            self.call = self.clock.callLater(0, self)\n        else:\n            self.call = self.clock.callLater(howLong(), self)\n"),
+
+    # --- second round of independent refactors: closures lifted to bound methods, a helper that answers a question in an if-test
+    Silent("callbacks-as-bound-methods-and-cancel-question-helper", TASK, "        def cb(result: object) -> None:\n" + _CB + "\n        def eb(failure: Failure) -> None:\n" + _EB + "\n", "",
+           more=[(TASK, "        d.addCallback(cb)\n        d.addErrback(eb)\n", "        d.addCallback(self._done)\n        d.addErrback(self._failed)\n"),
+                 (TASK, "    def _scheduleFrom(self, when: float) -> None:\n",
+                  "    def _done(self, result: object) -> None:\n" + _CB.replace("            ", "        ", 1).replace("\n            ", "\n        ") +
+                  "\n    def _failed(self, failure: Failure) -> None:\n" + _EB.replace("            ", "        ", 1).replace("\n            ", "\n        ") +
+                  "\n    def _dropPending(self) -> bool:\n        if self.call is None:\n            return False\n        self.call.cancel()\n        self.call = None\n        return True\n\n"
+                  "    def _scheduleFrom(self, when: float) -> None:\n"),
+                 (TASK, "        if self.call is not None:\n            self.call.cancel()\n            self.call = None\n            self.starttime = self.clock.seconds()\n",
+                  "        if self._dropPending():\n            self.starttime = self.clock.seconds()\n"),
+                 (TASK, "        if self.call is not None:\n            self.call.cancel()\n            self.call = None\n            d, self._deferred", "        if self._dropPending():\n            d, self._deferred")]),
 ]
